@@ -19,10 +19,13 @@ BASE, UTL = "moclo/moclo/registry/base.py", "moclo/moclo/registry/_utils.py"
 FILES = [BASE, UTL]
 FUNCTIONS = [(BASE, "CombinedRegistry.add_registry"), (BASE, "CombinedRegistry.__getitem__"),
              (BASE, "CombinedRegistry.__contains__"), (BASE, "CombinedRegistry.__len__"), (BASE, "CombinedRegistry.__iter__"),
+             (BASE, "FilesystemRegistry.__iter__"), (BASE, "FilesystemRegistry.__len__"),
              (UTL, "find_resistance"), (BASE, "FilesystemRegistry.__getitem__")]
 ASSUMES = ["D-DICT", "D-SET", "D-FS", "D-IO",
-           "EmbeddedRegistry and FilesystemRegistry.__iter__/__len__ (generators over tarfile / pyfilesystem2) are not under "
-           "contract: embedded archives are enumerated completely (finite), directory iteration is bounded",
+           "EmbeddedRegistry (tarfile / pkg_resources) is not under contract: the five embedded archives are enumerated "
+           "completely (finite). FilesystemRegistry.__iter__/__len__ are under contract over the assumed directory listing "
+           "(D-FS: filterdir('/') yields each root-level file matching *.<ext> once, and every such file); generators are "
+           "executed eagerly (terminating, fully consumed)",
            "AbstractPart.characterize: abstract view (its body is C05's subject)"]
 TRUSTED = ["tarfile, pkg_resources, pyfilesystem2, Bio.SeqIO GenBank parser"]
 EXPLANATION = ("body VCs of CombinedRegistry (union with first-one-wins by a loop invariant with a ghost witness, lookup, "
@@ -49,6 +52,25 @@ def lemmas(ctx):
                           text="iter(r) subset of the domain of r[...]"))
     # (the converse -- lookup finds only yielded keys -- is the `raises` clause of FilesystemRegistry.__getitem__:
     #  KeyError exactly when no candidate is a file of the root directory)
+    # L2: iteration (contract of FilesystemRegistry.__iter__, over the assumed directory listing) and lookup (contract of
+    # __getitem__) agree: a key is yielded iff looking it up does not raise KeyError
+    from contracts.registry_c import FsIter, iter_post, W1S, W2S, SEQS
+    from pyvc.models_moclo import fs_listing, listing_facts
+    exts = list(FsIter.EXT)
+    Fl = fs_listing(exts)
+    Y, W1, W2 = tm.V("Y", SEQS), tm.V("W1", W1S), tm.V("W2", W2S)
+    facts = listing_facts(Fl, exts) + [t for (_, t) in iter_post(Fl, Y, W1, W2)]
+    # D-FS: splitext(x + '.' + e) = (x, '.' + e)
+    split = [tm.and_(tm.eq(tm.app("path_stem", STR, c), key), tm.eq(tm.app("path_ext", STR, c), tm.S("." + e)))
+             for c, e in zip(cands, exts)]
+    nofile = tm.and_(*[tm.not_(tm.and_(isfile(c), tm.not_(tm.contains(c, "/")))) for c in cands])   # = the KeyError condition
+    i_ = tm.V("i", INT)
+    out.append(Obligation("C20.L2a a key that iteration yields is found by the lookup", facts + split + [
+        tm.le(0, i_), tm.lt(i_, tm.seqlen(Y)), tm.eq(tm.seqnth(Y, i_), key)], tm.not_(nofile), kind="B",
+        text="Y[i] = key => some key.<ext> is a root-level file, so __getitem__ does not raise KeyError"))
+    out.append(Obligation("C20.L2b a key that iteration does not yield raises KeyError", facts + split + [
+        tm.forall_range(i_, 0, tm.seqlen(Y), tm.ne(tm.seqnth(Y, i_), key))], nofile, kind="B",
+        text="key not in Y => no key.<ext> is a root-level file"))
     must_fail = tm.or_(*[isfile(c) for c in cands])
     out.append(Obligation("C20.MF1 must-fail: `some candidate is a file` does not make the key a yielded key", [must_fail], yielded,
                           kind="V", expect="sat", text="a key with a path separator reaches files below the root"))
